@@ -510,3 +510,36 @@ package rules
 //@   may_panic
 //@   ensures dataType == DataTypeString ==> typeIs(lastKey, "string") && len(payload(lastKey, "string")) == len(ctx.builtArrayBuffer)
 //@   ensures dataType == DataTypeResourceID ==> typeIs(lastKey, "rid") && len(payload(lastKey, "rid")) == len(ctx.builtArrayBuffer)
+
+// Text keys that arrive as one array event: same registration as the chunked form above.
+// The validators only inspect their arguments and reject by panicking (trusted).
+//@ func (*Context).ValidateFullArrayKeyable
+//@   trusted
+//@   may_panic
+//@ func (*Context).ValidateFullArrayStringlikeKeyable
+//@   trusted
+//@   may_panic
+//@ func (*MapKeyRule).OnArray
+//@   requires ctx != nil && ctx.CurrentEntry.Keys != nil && (arrayType == events.ArrayTypeString || arrayType == events.ArrayTypeResourceID)
+//@   modifies mapof(ctx.CurrentEntry.Keys), ctx.CurrentEntry.Rule, alloc, lastKey
+//@   may_panic
+//@   ensures arrayType == events.ArrayTypeString ==> typeIs(lastKey, "string") && len(payload(lastKey, "string")) == len(data)
+//@   ensures arrayType == events.ArrayTypeResourceID ==> typeIs(lastKey, "rid") && len(payload(lastKey, "rid")) == len(data)
+//@ func (*MapKeyRule).OnStringlikeArray
+//@   requires ctx != nil && ctx.CurrentEntry.Keys != nil && (arrayType == events.ArrayTypeString || arrayType == events.ArrayTypeResourceID)
+//@   modifies mapof(ctx.CurrentEntry.Keys), ctx.CurrentEntry.Rule, alloc, lastKey
+//@   may_panic
+//@   ensures arrayType == events.ArrayTypeString ==> typeIs(lastKey, "string") && len(payload(lastKey, "string")) == len(data)
+//@   ensures arrayType == events.ArrayTypeResourceID ==> typeIs(lastKey, "rid") && len(payload(lastKey, "rid")) == len(data)
+//@ func (*RecordTypeRule).OnArray
+//@   requires ctx != nil && ctx.CurrentEntry.Keys != nil && (arrayType == events.ArrayTypeString || arrayType == events.ArrayTypeResourceID)
+//@   modifies mapof(ctx.CurrentEntry.Keys), alloc, lastKey
+//@   may_panic
+//@   ensures arrayType == events.ArrayTypeString ==> typeIs(lastKey, "string") && len(payload(lastKey, "string")) == len(data)
+//@   ensures arrayType == events.ArrayTypeResourceID ==> typeIs(lastKey, "rid") && len(payload(lastKey, "rid")) == len(data)
+//@ func (*RecordTypeRule).OnStringlikeArray
+//@   requires ctx != nil && ctx.CurrentEntry.Keys != nil && (arrayType == events.ArrayTypeString || arrayType == events.ArrayTypeResourceID)
+//@   modifies mapof(ctx.CurrentEntry.Keys), alloc, lastKey
+//@   may_panic
+//@   ensures arrayType == events.ArrayTypeString ==> typeIs(lastKey, "string") && len(payload(lastKey, "string")) == len(data)
+//@   ensures arrayType == events.ArrayTypeResourceID ==> typeIs(lastKey, "rid") && len(payload(lastKey, "rid")) == len(data)
